@@ -682,6 +682,7 @@ class InterpCore(object):
             b = ListV(b.values, "tuple")
         if isinstance(a, ListV) and isinstance(b, ListV) and a.kind == b.kind == "tuple" and len(a.items) == len(b.items):
             res = [self.equals(x, y, node) for x, y in zip(a.items, b.items)]
+            res = [self.assume(r) if isinstance(r, Cond) else r for r in res]
             if all(r is True for r in res):
                 return True
             if any(r is False for r in res):
@@ -739,7 +740,13 @@ class InterpCore(object):
             from .symeval_ext import concrete_key
             if concrete_key(item) and all(concrete_key(k) for k, _ in container.items.values()):
                 return False
-            return Cond("in", item, container)
+            kind, res = self.dict_lookup(container, item, node)
+            if kind == "hit":
+                return True
+            if kind == "miss":
+                return False
+            conds = [c for c, _ in res]
+            return conds[0] if len(conds) == 1 else Cond("or", *conds)
         if isinstance(container, Const) and isinstance(container.v, str) and isinstance(item, Const):
             return item.v in container.v
         if isinstance(container, StrV) and isinstance(item, Const) and isinstance(item.v, str) and item.v \
